@@ -21,7 +21,10 @@ import (
 	"math/rand/v2"
 	"os"
 	"path/filepath"
+	"regexp"
+	"runtime/debug"
 	"sort"
+	"strings"
 	"sync"
 	"syscall"
 	"testing"
@@ -73,6 +76,7 @@ type vf10Case struct {
 	cfg   vf10Cfg
 	fs    *FSTree
 	rng   *rand.Rand
+	arng  *rand.Rand // stream of the border-aligned combined files (opAligned)
 	items []*vf10Item
 	model map[oid.Address][]byte
 	byAdr map[oid.Address]*vf10Item
@@ -416,6 +420,57 @@ func vf10Diff(got, want []byte) string {
 	return "equal"
 }
 
+var vf10PanicNoise = regexp.MustCompile(`\[[^\]]*\]|0x[0-9a-fA-F]+|[0-9]+`)
+
+// vf10PanicSite returns the function (without package path) of the innermost non-runtime
+// frame of a panic stack and whether that frame is harness code.
+func vf10PanicSite(st string) (fn string, harness bool) {
+	lines := strings.Split(st, "\n")
+	seenPanic := false
+	for i, l := range lines {
+		if strings.HasPrefix(l, "panic(") {
+			seenPanic = true
+			continue
+		}
+		if !seenPanic || l == "" || strings.HasPrefix(l, "\t") || strings.HasPrefix(l, "goroutine ") || strings.HasPrefix(l, "runtime.") || strings.HasPrefix(l, "runtime/") {
+			continue
+		}
+		fn = l
+		if j := strings.LastIndex(fn, "("); j > 0 {
+			fn = fn[:j]
+		}
+		if j := strings.LastIndex(fn, "."); j >= 0 {
+			fn = fn[j+1:]
+		}
+		file := ""
+		if i+1 < len(lines) {
+			file = lines[i+1]
+		}
+		return fn, strings.Contains(file, "zz_verif") || strings.Contains(l, "verifkit")
+	}
+	return "unknown", false
+}
+
+// guardRead turns a panic of the code under test during a read of addr into a violation
+// whose class key names the API, the kind of panic, the panicking function and the on-disk
+// format (a stored address must be readable, an absent one must give not-found).  Panics
+// of harness code are passed on (the kit reports them as inconclusive).
+func (c *vf10Case) guardRead(api string, addr oid.Address, f func()) {
+	defer func() {
+		p := recover()
+		if p == nil {
+			return
+		}
+		fn, harness := vf10PanicSite(string(debug.Stack()))
+		if harness {
+			panic(p)
+		}
+		shape := strings.Join(strings.Fields(vf10PanicNoise.ReplaceAllString(strings.TrimPrefix(fmt.Sprint(p), "runtime error: "), "")), "-")
+		c.violationKey(api, "panic:"+shape+"@"+fn, addr, fmt.Sprintf("panic in code under test: %v", p))
+	}()
+	f()
+}
+
 // verify checks every read API for addr against the model.
 func (c *vf10Case) verify(addr oid.Address, full bool) {
 	want, present := c.model[addr]
@@ -428,7 +483,7 @@ func (c *vf10Case) verify(addr oid.Address, full bool) {
 	}
 	api := func(name string, f func()) {
 		c.r.Count("read_"+name+"_"+outcome, 1)
-		if c.r.Guard(desc, f) {
+		if c.r.Guard(desc, func() { c.guardRead(name, addr, f) }) {
 			c.bad = true
 		}
 	}
@@ -953,11 +1008,301 @@ func (c *vf10Case) opSeedCombined() {
 	c.afterWrite("seed-combined", its)
 }
 
+// ---- border-aligned combined files -------------------------------------------------
+//
+// The readers walk a combined file member by member through fixed-size read windows.
+// Whether a member's 38-byte prefix (or its header) lies wholly inside a window, ends
+// exactly on a window border, straddles the border or lies beyond it depends only on the
+// cumulative lengths of the preceding members, and random lengths almost never produce
+// the 1..37-byte straddle.  opAligned therefore builds combined files whose member
+// lengths are computed so that the start of a later member's prefix lands a chosen
+// distance t before a multiple of the window length W, counted from an earlier prefix
+// start of the same file (the file start, the end of a member longer than a window, or
+// any earlier member).  The oracle is unchanged: the Go map, through every read API.
+
+// vf10BuildExact makes an object for addr whose encoding is exactly want bytes long if any
+// of the header kinds allows that (ok=false: closest length reached).
+func vf10BuildExact(rng *rand.Rand, addr oid.Address, want int, kinds []int) (data []byte, hdrLen int, kind int, ok bool) {
+	for _, hk := range kinds {
+		data, hdrLen = vf10Build(rng, addr, hk, want)
+		if len(data) == want {
+			return data, hdrLen, hk, true
+		}
+	}
+	return data, hdrLen, kinds[len(kinds)-1], false
+}
+
+// vf10PickTail picks how many bytes before a window border the next member must start:
+// 0 = on the border, 1..37 = its prefix straddles the border, 38 = its data starts on the
+// border, more = its header straddles the border.
+func vf10PickTail(rng *rand.Rand, w int) int {
+	switch k := rng.IntN(100); {
+	case k < 40:
+		return 1 + rng.IntN(combinedDataOff-1)
+	case k < 50:
+		return []int{1, combinedDataOff - 1}[rng.IntN(2)]
+	case k < 60:
+		return 0
+	case k < 70:
+		return combinedDataOff
+	case k < 74:
+		return combinedDataOff + 1
+	case k < 82: // the member starts inside the last prefix-length of a window that carries a tail over
+		return combinedDataOff + rng.IntN(combinedDataOff)
+	case k < 90:
+		return combinedDataOff + 2 + rng.IntN(200)
+	default:
+		return combinedDataOff + rng.IntN(w/2)
+	}
+}
+
+// plantCombined writes a combined file with the given members in the given order (layout
+// of doc.go) and links it under the path of every member.
+func (c *vf10Case) plantCombined(its []*vf10Item, stored [][]byte) bool {
+	var file []byte
+	for i, it := range its {
+		var pref [combinedDataOff]byte
+		pref[0] = combinedPrefix
+		id := it.addr.Object()
+		copy(pref[combinedIDOff:], id[:])
+		binary.BigEndian.PutUint32(pref[combinedLengthOff:], uint32(len(stored[i])))
+		file = append(append(file, pref[:]...), stored[i]...)
+	}
+	c.auxN++
+	tmp := filepath.Join(c.aux, fmt.Sprintf("aligned-%d", c.auxN))
+	if err := os.WriteFile(tmp, file, 0o600); err != nil {
+		c.r.Inconclusive("aligned write: " + err.Error())
+		return false
+	}
+	defer os.Remove(tmp)
+	for _, it := range its {
+		p := c.fs.treePath(it.addr)
+		if err := os.MkdirAll(filepath.Dir(p), 0o700); err != nil {
+			c.r.Inconclusive("aligned mkdir: " + err.Error())
+			return false
+		}
+		if err := os.Link(tmp, p); err != nil {
+			c.r.Inconclusive("aligned link: " + err.Error())
+			return false
+		}
+	}
+	return true
+}
+
+func (c *vf10Case) opAligned() {
+	if c.arng == nil {
+		return
+	}
+	saved := c.rng
+	c.rng = c.arng // own stream: the main history of the case does not depend on these files
+	defer func() { c.rng = saved }()
+	rng := c.rng
+
+	w := []int{vf10NPFBL, vf10NPFBL, vf10NPFBL, vf10NPFBL, vf10NPFBL, vf10NPFBL, vf10NPFBL, 2 * vf10NPFBL, 4096, 32768}[rng.IntN(10)]
+	const minLen = 40
+	cnr := verifkit.RandCID(rng)
+	newItem := func() *vf10Item {
+		if rng.IntN(4) == 0 {
+			cnr = verifkit.RandCID(rng)
+		}
+		return &vf10Item{addr: oid.NewAddress(cnr, verifkit.RandOID(rng))}
+	}
+	allKinds := func() []int {
+		k := []int{0, 1, 2, 3}
+		rng.Shuffle(len(k), func(i, j int) { k[i], k[j] = k[j], k[i] })
+		return k
+	}
+
+	var (
+		its    []*vf10Item
+		datas  [][]byte
+		stored [][]byte
+		aims   []string
+		mode   = "planted"
+	)
+	if !c.cfg.Generic && rng.IntN(3) == 0 {
+		// Real batch writer.  PutBatch takes a map, so the member order is not under
+		// control: all members get the same length, which makes the layout independent
+		// of the order.  Member number i starts t bytes before the k-th border.
+		mode = "putbatch-equal"
+		i := 1 + rng.IntN(4)
+		t := vf10PickTail(rng, w)
+		k := 1
+		for (k*w-t)/i-combinedDataOff < minLen+1 {
+			k++
+		}
+		t += (k*w - t) % i // i*(38+l) == k*w-t exactly
+		l := (k*w-t)/i - combinedDataOff
+		first := newItem()
+		d0, h0, hk, _ := vf10BuildExact(rng, first.addr, l, allKinds())
+		first.variants[0], first.hdrLen[0] = d0, h0
+		its, datas, stored, aims = append(its, first), append(datas, d0), append(stored, d0), append(aims, fmt.Sprintf("equal:i=%d,k=%d,t=%d", i, k, t))
+		for n := i + rng.IntN(3); n > 0; n-- {
+			it := newItem()
+			d, h := vf10Build(rng, it.addr, hk, len(d0))
+			if len(d) != len(d0) {
+				continue
+			}
+			it.variants[0], it.hdrLen[0] = d, h
+			its, datas, stored, aims = append(its, it), append(datas, d), append(stored, d), append(aims, "equal")
+		}
+	} else {
+		m := 2 + rng.IntN(7)
+		pos := 0          // file offset of the next member's prefix
+		starts := []int{} // prefix starts of the members so far
+		lastBig := 0      // offset right after the last member that is longer than a window
+		for j := 0; j < m; j++ {
+			it := newItem()
+			starts = append(starts, pos)
+			var data, st []byte
+			var hl int
+			aim := ""
+			switch k := rng.IntN(100); {
+			case k < 62: // aimed: the next prefix starts t bytes before anchor + k*w
+				anchor := 0
+				switch a := rng.IntN(10); {
+				case a < 4:
+					anchor = lastBig
+				case a < 6:
+					anchor = starts[rng.IntN(len(starts))]
+				}
+				t := vf10PickTail(rng, w)
+				kk := 1
+				for anchor+kk*w-t-pos-combinedDataOff < minLen {
+					kk++
+				}
+				if rng.IntN(6) == 0 {
+					kk += 1 + rng.IntN(2)
+				}
+				l := anchor + kk*w - t - pos - combinedDataOff
+				var ok bool
+				data, hl, _, ok = vf10BuildExact(rng, it.addr, l, allKinds())
+				st = data
+				aim = fmt.Sprintf("aimed:anchor=%d,k=%d,t=%d,exact=%v", anchor, kk, t, ok)
+				if ok {
+					c.r.Count("aligned_members_aimed_exactly", 1)
+				}
+			case k < 85: // free length, possibly stored compressed
+				data, hl = vf10Build(rng, it.addr, rng.IntN(4), minLen+rng.IntN(3*w/2))
+				st = data
+				aim = "free"
+				if rng.IntN(3) == 0 {
+					st = vf10Enc.EncodeAll(data, nil)
+					aim = "free-zstd"
+				}
+			default: // longer than a window
+				data, hl = vf10Build(rng, it.addr, rng.IntN(4), w+1+rng.IntN(2*w))
+				st = data
+				aim = "big"
+			}
+			it.variants[0], it.hdrLen[0] = data, hl
+			its, datas, stored, aims = append(its, it), append(datas, data), append(stored, st), append(aims, aim)
+			pos += combinedDataOff + len(st)
+			if len(st) >= w {
+				lastBig = pos
+			}
+		}
+	}
+
+	lens := make([]int, len(its))
+	slens := make([]int, len(its))
+	for i := range its {
+		lens[i], slens[i] = len(datas[i]), len(stored[i])
+	}
+	c.log("aligned-combined", its, lens, fmt.Sprintf("mode=%s window=%d stored-lens=%v aims=%v", mode, w, slens, aims))
+
+	if mode == "planted" {
+		if !c.plantCombined(its, stored) {
+			return
+		}
+	} else {
+		batch := make(map[oid.Address][]byte, len(its))
+		for i, it := range its {
+			batch[it.addr] = datas[i]
+		}
+		var err error
+		if c.r.Guard(c.steps[len(c.steps)-1], func() { err = c.fs.PutBatch(batch) }) {
+			c.bad = true
+			return
+		}
+		if err != nil {
+			c.violation("PutBatch", "error", its[0].addr, "batch put on a healthy store failed: "+err.Error())
+			return
+		}
+	}
+	for i, it := range its {
+		c.model[it.addr] = datas[i]
+		c.byAdr[it.addr] = it
+	}
+	defer func() {
+		for _, it := range its {
+			delete(c.byAdr, it.addr)
+		}
+	}()
+	c.r.Count("aligned_files_"+mode, 1)
+	c.r.Count("aligned_members", len(its))
+	c.r.Seen("aligned_window_lengths", fmt.Sprint(w))
+	c.groupStats(its)
+	// what the layout really is (evidence only)
+	for off, i := 0, 0; i < len(its); i++ {
+		if i > 0 {
+			if t := (w - off%w) % w; t < combinedDataOff+2 {
+				c.r.Seen("aligned_prefix_starts_bytes_before_border", fmt.Sprint(t))
+				if t > 0 && t < combinedDataOff {
+					c.r.Count("aligned_prefixes_straddling_a_border", 1)
+				}
+				c.r.Distinct(fmt.Sprintf("%s|aligned|%s|w%d|t%d", c.cfg, mode, w, t))
+			}
+		}
+		off += combinedDataOff + len(stored[i])
+	}
+
+	for _, it := range its {
+		c.verify(it.addr, true)
+		if c.bad {
+			return
+		}
+		c.r.Seen("formats_on_disk", c.format(it.addr))
+	}
+	c.verifyIterations()
+
+	// delete the members one by one (seeded order); the survivors keep their bytes
+	order := rng.Perm(len(its))
+	for n, oi := range order {
+		it := its[oi]
+		c.log("delete", []*vf10Item{it}, nil, fmt.Sprintf("aligned member, %d left", len(order)-n-1))
+		var err error
+		if c.r.Guard(c.steps[len(c.steps)-1], func() { err = c.fs.Delete(it.addr) }) {
+			c.bad = true
+			return
+		}
+		if err != nil {
+			c.violation("Delete", "error-for-stored", it.addr, err.Error())
+			return
+		}
+		delete(c.model, it.addr)
+		c.r.Count("delete_ok", 1)
+		c.verify(it.addr, true)
+		left := order[n+1:]
+		for s := 0; s < 2 && s < len(left); s++ {
+			c.verify(its[left[rng.IntN(len(left))]].addr, true)
+			c.r.Count("survivor_reads_after_aligned_member_delete", 1)
+		}
+		if c.bad {
+			return
+		}
+	}
+	c.verifyIterations()
+}
+
 func (c *vf10Case) run(nOps int) {
 	c.open()
 	defer func() { _ = c.fs.Close() }()
 	c.genUniverse()
 	c.sweep() // empty store: everything not-found, iterations empty
+	if !c.bad {
+		c.opAligned()
+	}
 	for i := 0; i < nOps && !c.bad; i++ {
 		switch k := c.rng.IntN(100); {
 		case k < 22:
@@ -977,6 +1322,9 @@ func (c *vf10Case) run(nOps int) {
 		}
 		if i%8 == 7 {
 			c.sweep()
+		}
+		if i%16 == 11 && !c.bad {
+			c.opAligned() // while other objects are stored
 		}
 		c.r.Max("max_stored_at_once", int64(len(c.model)))
 	}
@@ -1036,7 +1384,7 @@ func TestVerif_C10(t *testing.T) {
 		if rng.IntN(3) == 0 {
 			cfg.IntervalMs = 1 + rng.IntN(3)
 		}
-		c := &vf10Case{r: r, t: t, idx: i, cfg: cfg, rng: rng, model: map[oid.Address][]byte{}, byAdr: map[oid.Address]*vf10Item{}}
+		c := &vf10Case{r: r, t: t, idx: i, cfg: cfg, rng: rng, arng: r.Rand("aligned", i), model: map[oid.Address][]byte{}, byAdr: map[oid.Address]*vf10Item{}}
 		r.Guard(map[string]any{"case": i, "cfg": cfg}, func() { c.run(nOps) })
 		r.Eval(1)
 		r.Count("steps_executed", len(c.steps))
@@ -1049,5 +1397,8 @@ func TestVerif_C10(t *testing.T) {
 	}
 	if r.Counter("survivor_reads_after_member_delete") == 0 || r.Counter("seeded_zstd_files") == 0 || r.Counter("seeded_combined_files") == 0 {
 		r.Inconclusive("workload never produced a shared combined file with a deleted member, or no compressed/combined seeded files")
+	}
+	if r.Violations() == 0 && (r.Counter("aligned_prefixes_straddling_a_border") == 0 || r.Counter("aligned_files_planted") == 0) {
+		r.Inconclusive("workload never produced a combined file with a member prefix straddling a read-window border")
 	}
 }
